@@ -299,6 +299,26 @@ theorem C17a_shplonk_W_necessary (τ : α) (pr : ShProof α) (digests : List α)
       linear_combination hacc - hb
     exact absurd (mul_left_cancel₀ hz this) hne
 
+/-- PARTIAL VANISHING: when the first G1 operand `F + z·W'` of the verifier's pairing product is the identity
+(`F = Σᵢ γⁱ·Z_{T∖Sᵢ}(z)·(Cᵢ − rᵢ(z)) − Z_T(z)·W`; reachable for any false claimed values with `W' := −F/z`, op `mut=vanish`),
+the proof is REJECTED as soon as `W' ≠ O` and `τ ≠ 0`: the second pair `e(W', [τ]G2)` decides. -/
+theorem C17a_shplonk_first_operand_zero (τ : α) (pr : ShProof α) (digests : List α) (points : List (List α)) (γ z : α)
+    (hl1 : digests.length = pr.claimed.length) (hl2 : digests.length = points.length)
+    (h0 : (∑ i ∈ Finset.range points.length, shGz (ofField K) (points.map (List.map φ)) (φ γ) (φ z) i *
+          ((digests.map φ).getD i 0 - evalP (ofField K)
+              (shRi (ofField K) (points.map (List.map φ)) (pr.claimed.map (List.map φ)) i) (φ z)))
+        - evalP (ofField K) (vanishing (ofField K) (points.map (List.map φ)).flatten) (φ z) * φ pr.W
+        + φ z * φ pr.WPrime = 0)
+    (hτ : φ τ ≠ 0) (hW : φ pr.WPrime ≠ 0) :
+    shVerify F F.one F.one τ pr digests points γ z = some false := by
+  obtain ⟨b, hb⟩ := shVerify_eq_some h F.one F.one τ pr digests points γ z hl1 hl2
+  cases b with
+  | false => exact hb
+  | true =>
+    rw [C17a_shplonk_exact h τ pr digests points γ z hl1 hl2] at hb
+    have : φ τ * φ pr.WPrime = 0 := by linear_combination h0 - hb
+    exact absurd this (mul_ne_zero hτ hW)
+
 end shplonk
 
 /-! ## 2b. fflonk (partial)
@@ -490,6 +510,52 @@ theorem C17a_mpc_go_variant_blind (prevG1 : List α) (prevG2 : α) (nextG1 nextG
 
 end mpc
 
+/-! ## 4b. setup ceremony: subgroup membership of every element of a contribution
+A component of cofactor order is invisible to the pairing equations (the exponent model gives `P + T` the logarithm of `P`);
+the explicit subgroup checks are the only checks that reject it. The model carries one membership flag per element
+(`C17 mpcsetup … kind=step mut=nosub sub1=… sub2=… subc=… subp=…`: the harness adds a point of cofactor order, in memory,
+exactly where a flag is 0). -/
+section mpcsub
+variable {α : Type} (F : FOps α)
+
+/-- EXACT ACCEPTANCE with flags: every element of the contribution is in its subgroup and the flag-free verifier accepts -/
+theorem C17a_mpc_sub_iff (subG1 : List Bool) (subG2 subCom subPok : Bool) (prevG1 : List α) (prevG2 : α)
+    (nextG1 : List α) (nextG2 : α) (p : UpdProof α) (c : Bool) :
+    mpcVerifySub F subG1 subG2 subCom subPok prevG1 prevG2 nextG1 nextG2 p c = true ↔
+      (∀ b ∈ subG1, b = true) ∧ subG2 = true ∧ subCom = true ∧ subPok = true ∧
+      mpcVerify F false prevG1 prevG2 nextG1 nextG2 p c = true := by
+  simp [mpcVerifySub, and_assoc]
+
+/-- EVERY membership check is individually necessary: a single false flag — at ANY power index of the proving key (first
+and last included), on `[x]₂`, on the commitment or on the proof of knowledge of the update proof — rejects, whatever the
+other data (in particular an otherwise honest contribution, which satisfies every pairing equation) -/
+theorem C17a_mpc_reject_nosub (subG1 : List Bool) (subG2 subCom subPok : Bool) (prevG1 : List α) (prevG2 : α)
+    (nextG1 : List α) (nextG2 : α) (p : UpdProof α) (c : Bool)
+    (hbad : false ∈ subG1 ∨ subG2 = false ∨ subCom = false ∨ subPok = false) :
+    mpcVerifySub F subG1 subG2 subCom subPok prevG1 prevG2 nextG1 nextG2 p c = false := by
+  rw [Bool.eq_false_iff, Ne, C17a_mpc_sub_iff]
+  rintro ⟨h1, h2, h3, h4, _⟩
+  rcases hbad with hb | hb | hb | hb
+  · exact absurd (h1 _ hb) (by decide)
+  · simp [hb] at h2
+  · simp [hb] at h3
+  · simp [hb] at h4
+
+/-- with all flags true the verdict is the flag-free one (completeness is `C17a_mpc_complete`) -/
+theorem C17a_mpc_sub_all_true (subG1 : List Bool) (hall : ∀ b ∈ subG1, b = true) (prevG1 : List α) (prevG2 : α)
+    (nextG1 : List α) (nextG2 : α) (p : UpdProof α) (c : Bool) :
+    mpcVerifySub F subG1 true true true prevG1 prevG2 nextG1 nextG2 p c = mpcVerify F false prevG1 prevG2 nextG1 nextG2 p c := by
+  have : subG1.all id = true := by simpa using hall
+  simp [mpcVerifySub, this]
+
+/-- `UpdateProof.Verify` subgroup-checks its own two elements: exact acceptance with flags, hence rejection of either false flag -/
+theorem C17a_upd_sub_iff (subCom subPok : Bool) (p : UpdProof α) (prev1 next1 prev2 next2 : List α) :
+    updVerifySub F subCom subPok p prev1 next1 prev2 next2 = true ↔
+      subCom = true ∧ subPok = true ∧ updVerify F p prev1 next1 prev2 next2 = true := by
+  simp [updVerifySub, and_assoc]
+
+end mpcsub
+
 /-! ## 5. the driver's dictionary; non-vacuity -/
 section instances
 
@@ -531,6 +597,13 @@ example : mpcVerify (fp 13) false [1, 2, 4] 2 [1, 6, 10] 6 ⟨3, 3, true⟩ true
 example : mpcVerify (fp 13) true [1, 2, 4] 2 [1, 6, 10] 6 ⟨3, 3, true⟩ true = true := by decide
 example : mpcVerify (fp 13) false [1, 2, 4] 2 [1, 6, 11] 6 ⟨3, 3, true⟩ true = false := by decide
 example : mpcVerify (fp 13) true [1, 2, 4] 2 [1, 6, 11] 6 ⟨3, 3, true⟩ true = true := by decide
+-- the honest step with membership flags: all true accepted; the LAST power / the first power / [x]₂ / the proof flagged: rejected
+example : mpcVerifySub (fp 13) [true, true] true true true [1, 2, 4] 2 [1, 6, 10] 6 ⟨3, 3, true⟩ true = true := by decide
+example : mpcVerifySub (fp 13) [true, false] true true true [1, 2, 4] 2 [1, 6, 10] 6 ⟨3, 3, true⟩ true = false := by decide
+example : mpcVerifySub (fp 13) [false, true] true true true [1, 2, 4] 2 [1, 6, 10] 6 ⟨3, 3, true⟩ true = false := by decide
+example : mpcVerifySub (fp 13) [true, true] false true true [1, 2, 4] 2 [1, 6, 10] 6 ⟨3, 3, true⟩ true = false := by decide
+example : mpcVerifySub (fp 13) [true, true] true false true [1, 2, 4] 2 [1, 6, 10] 6 ⟨3, 3, true⟩ true = false := by decide
+example : mpcVerifySub (fp 13) [true, true] true true false [1, 2, 4] 2 [1, 6, 10] 6 ⟨3, 3, true⟩ true = false := by decide
 example : permVerify (fp 13) 4 5 [1, 1, 1, 0] 1 2 3 4 true true = true := by decide
 example : permVerify (fp 13) 4 5 [1, 1, 1, 0] 1 2 3 4 false true = false := by decide
 
